@@ -161,7 +161,7 @@ def run(tier, seed, replay=None):
     build = lib.Build().run()
     rep.proof = lib.compile_props(PID)
     rng = lib.rng_for(seed, PID)
-    n = 64 if tier == 'quick' else 1600
+    n = 64 if tier == 'quick' else 12800
     cases = [gen_case(rng, c, two=(c % 3 == 2), per=6) for c in range(n)]
     results = lib.run_sessions(cases)
     lib.std_checks(rep, results, oracle)
